@@ -68,15 +68,22 @@ def selftest(prop, jobs):
                 os.environ.pop('PYVC_REPO', None)
             refuted = sum(1 for o in res for r in o['results'] if r['verdict'] == 'refuted' and not r.get('finding'))
             undec = [o['undecided'] for o in res if o['undecided']]
+            open_ = [o for o in res if o['undecided'] or any(r['verdict'] == 'undecided' and not r.get('exploratory') and not r.get('finding') for r in o['results'])]
             caught = refuted > 0
-            if not caught and undec:
-                # a unit the verifier cannot reach on the changed code: the bounded stand-in decides, as in the check itself
+            if not caught and open_:
+                # a unit (or an obligation) the verifier leaves open on the changed code: the bounded stand-in decides, as in the check itself
                 from specs import registry
-                for o in res:
-                    fb = registry.bounded_for(o['job']) if o['undecided'] else None
-                    if fb:
-                        p = subprocess.run(['/venv/bin/python', os.path.join(ROOT, fb)], capture_output=True, text=True, timeout=600, cwd=scratch, env=dict(os.environ, PYTHONPATH=scratch))
-                        caught = caught or p.returncode == 1
+                ran = {}
+                for o in open_:
+                    fb = registry.bounded_for(o['job'])
+                    if fb and fb not in ran:
+                        try:
+                            p = subprocess.run(['/venv/bin/python', os.path.join(ROOT, fb)], capture_output=True, text=True, timeout=600, cwd=scratch,
+                                               env=dict(os.environ, PYTHONPATH=scratch), start_new_session=True)
+                            ran[fb] = p.returncode
+                        except subprocess.TimeoutExpired:
+                            ran[fb] = 3
+                        caught = caught or ran[fb] == 1
             out[os.path.basename(d)] = {'caught': caught, 'refuted_obligations': refuted, 'undecided_units': len(undec)}
         finally:
             shutil.rmtree(scratch, ignore_errors=True)
